@@ -1017,7 +1017,7 @@ def run_ops(athlib, check, ops):
     return None, ex
 
 
-ENUM_EVERY = {'quick': {'C02': 256, 'C08': 160, 'C03': 4000}, 'thorough': {'C02': 128, 'C08': 128, 'C03': 2000}}
+ENUM_EVERY = {'quick': {'C02': 256, 'C08': 160, 'C03': 4000}, 'thorough': {'C02': 512, 'C08': 256, 'C03': 8000}}
 ENUM_DEPTH = {'C02': 2, 'C08': 1, 'C03': 1}
 
 
@@ -1068,8 +1068,8 @@ def enum_run(athlib, check, tier_, seed, stats):
     base = [op for op in ex.trace if op[0] not in ('crash_log', 'crash_card', 'resched')]
     alpha = enum_alphabet(ex, d)
     depth = ENUM_DEPTH[check]
-    if tier_ == 'thorough' and d.aux.random() < 1.0 / 16:
-        depth += 1              # (thorough: one base in sixteen goes one call deeper - up to 9 261 continuations)
+    if tier_ == 'thorough' and d.aux.random() < 1.0 / 64:
+        depth += 1              # (thorough: one base in 64 goes one call deeper - up to 9 261 continuations)
         stats.inc('enum:bases-one-deeper')
     for suffix in itertools.product(alpha, repeat=depth):
         ex2 = Executor(athlib, check, stats)
